@@ -94,12 +94,18 @@ func (p *Provider) Run(ctx context.Context, deps core.ProviderDeps) (err error) 
 }
 
 func (p *Provider) runFullScan(ctx context.Context) error {
+	// With chosencases the limit counts delivered entries (the decoder counts scanned ones).
+	limitDelivered := len(p.Config.ChosenCases) > 0 && p.Config.Limit != 0
+	delivered := uint(0)
 	for {
 		if err := ctx.Err(); err != nil {
 			if !errors.Is(err, context.Canceled) {
 				err = xerrors.Errorf("error from context: %w", err)
 			}
 			return err
+		}
+		if limitDelivered && delivered >= p.Config.Limit {
+			return nil
 		}
 		ammo, err := p.Decoder.Scan(ctx)
 		if err != nil {
@@ -120,6 +126,7 @@ func (p *Provider) runFullScan(ctx context.Context) error {
 			}
 			return err
 		case p.Sink <- ammo:
+			delivered++
 		}
 	}
 }
